@@ -1,4 +1,4 @@
-import LexVerif.Proof.ParseNumberDebugLoops
+import LexVerif.Proof.ParseNumberDebugSkip
 /-!
 # Proof.ParseNumberDebugU64 — `try_parse_8digits`, `parse_8digits`, `parse_u64_digits` under `Ctx`
 
@@ -173,34 +173,48 @@ theorem u64Loop8_safe (cx : Ctx c) (k : Comp) (hcm : canMultidigit c k = true) :
         omega
     · exact ⟨adv_refl hb, hinv, by simp⟩
 
-theorem u64Loop1_safe (cx : Ctx c) (k : Comp) (ht : PeekTriv c k) :
+theorem u64Loop1_safe (cx : Ctx c) (k : Comp) (hg : Good c k) :
     ∀ (fuel : Nat) (b : Bytes) (m step : Nat), Bytes.Valid b → b.slc.length - b.index < fuel → MInv c m step →
-      DigRange c.mantissaRadix b.slc b.index b.slc.length →
+      DSRange c k b.slc b.index b.slc.length →
       Safe (u64Loop1 c k fuel b m step) (fun r => Adv b r.1 ∧ MInv c r.2.1 r.2.2 ∧
-        r.2.2 + (r.1.index - b.index) = step ∧ (r.2.2 = 0 ∨ r.1.index = b.slc.length)) := by
+        (PeekTriv c k → r.2.2 + (r.1.index - b.index) = step) ∧ (r.2.2 = 0 ∨ r.1.index = b.slc.length)) := by
   intro fuel
   induction fuel with
   | zero => intro b _ _ _ h; omega
   | succ n ih =>
     intro b m step hb hf hinv hdig
+    obtain ⟨v, b1, hp, ha, hx, _, _, hns, _⟩ := peek_good cx k hg b hb
+    have htriv : PeekTriv c k → b1 = b := by
+      intro ht
+      have := ht b
+      rw [hp] at this
+      simp only [Except.ok.injEq, Prod.mk.injEq] at this
+      exact this.2
     unfold u64Loop1
-    simp only [ht b, bind, Except.bind]
-    cases hx : b.slc[b.index]? with
+    simp only [hp, bind, Except.bind]
+    cases v with
     | none =>
-      have : b.slc.length ≤ b.index := by
-        rcases Nat.lt_or_ge b.index b.slc.length with h | h
-        · simp [h] at hx
+      have hge : b1.slc.length ≤ b1.index := by
+        rcases Nat.lt_or_ge b1.index b1.slc.length with h | h
+        · have := hx; simp [h] at this
         · exact h
-      have hv : b.index ≤ b.slc.length := hb
-      exact ⟨adv_refl hb, hinv, by simp, Or.inr (by simp only; omega)⟩
+      have hv : b1.index ≤ b1.slc.length := ha.valid'
+      refine ⟨ha, hinv, ?_, Or.inr ?_⟩
+      · intro ht; rw [htriv ht]; simp
+      · have := ha.len; simp only; omega
     | some ch =>
       simp only
-      have hlt := get_lt hx
+      have hxs : b1.slc[b1.index]? = some ch := hx.symm
+      have hlt := get_lt hxs
       split
       · next hs =>
-        obtain ⟨y, hy, hyd⟩ := hdig b.index (Nat.le_refl _) hlt
-        rw [hx] at hy
-        cases hy
+        have hyd : IsDig c.mantissaRadix ch := by
+          obtain ⟨y, hy, hyd⟩ := hdig b1.index ha.mono (by rw [← ha.len]; exact hlt)
+          rw [← ha.slc, hxs] at hy
+          cases hy
+          rcases hyd with h | ⟨h1, h2⟩
+          · exact h
+          · exact absurd (by rw [h1]) (hns h2)
         have hd : charToValidDigit ch c.mantissaRadix < c.mantissaRadix := hyd
         have hlt2 : m * c.mantissaRadix + charToValidDigit ch c.mantissaRadix
             < c.mantissaRadix ^ (u64Step c.feats c.mantissaRadix - (step - 1)) := by
@@ -213,47 +227,59 @@ theorem u64Loop1_safe (cx : Ctx c) (k : Comp) (ht : PeekTriv c k) :
         have h1 : decide (m * c.mantissaRadix + charToValidDigit ch c.mantissaRadix ≥ pow2_64) = false := by
           simp; omega
         simp only [h1, Bool.and_false, Bool.false_eq_true, if_false]
-        rw [iterStep_ok k b hlt (Or.inr (ne_sep_of_dig cx.sepNotDigM hx hyd))]
+        rw [iterStep_ok k b1 hlt (Or.inr (ne_sep_of_dig cx.sepNotDigM hxs hyd))]
         simp only
         rw [Nat.mod_eq_of_lt hlt64]
-        have hi := incCount_spec c k { b with index := b.index + 1 }
-        have hadv : Adv b (Bytes.incCount c k { b with index := b.index + 1 }) := adv_step_inc k (adv_refl hb) hlt
-        have hf2 : (Bytes.incCount c k { b with index := b.index + 1 }).slc.length
-            - (Bytes.incCount c k { b with index := b.index + 1 }).index < n := by
-          rw [hi.1, hi.2]; simp only; omega
-        have hdig2 : DigRange c.mantissaRadix (Bytes.incCount c k { b with index := b.index + 1 }).slc
-            (Bytes.incCount c k { b with index := b.index + 1 }).index
-            (Bytes.incCount c k { b with index := b.index + 1 }).slc.length := by
+        have hi := incCount_spec c k { b1 with index := b1.index + 1 }
+        have hadv : Adv b (Bytes.incCount c k { b1 with index := b1.index + 1 }) := adv_step_inc k ha hlt
+        have hf2 : (Bytes.incCount c k { b1 with index := b1.index + 1 }).slc.length
+            - (Bytes.incCount c k { b1 with index := b1.index + 1 }).index < n := by
+          rw [hi.1, hi.2]; simp only
+          have := ha.mono; have := ha.len; omega
+        have hdig2 : DSRange c k (Bytes.incCount c k { b1 with index := b1.index + 1 }).slc
+            (Bytes.incCount c k { b1 with index := b1.index + 1 }).index
+            (Bytes.incCount c k { b1 with index := b1.index + 1 }).slc.length := by
           rw [hi.1, hi.2]
+          simp only
+          rw [ha.slc]
           intro j h1 h2
-          exact hdig j (by simp only at h1; omega) h2
+          exact hdig j (by have := ha.mono; omega) h2
         refine (ih _ _ _ hadv.valid' hf2 hinv2 hdig2).mono ?_
-        intro r ⟨ha, hi2, hcnt, hend⟩
+        intro r ⟨ha2, hi2, hcnt, hend⟩
         rw [hi.1] at hend
+        simp only at hend
+        rw [ha.slc] at hend
+        refine ⟨hadv.trans ha2, hi2, ?_, hend⟩
+        intro ht
+        have hcnt := hcnt ht
         rw [hi.2] at hcnt
-        refine ⟨hadv.trans ha, hi2, ?_, hend⟩
-        have := ha.mono
+        have hb1 := htriv ht
+        subst hb1
+        have := ha2.mono
         rw [hi.2] at this
         simp only at this hcnt
         omega
       · next hs =>
-        exact ⟨adv_refl hb, hinv, by simp, Or.inl (by simp only; omega)⟩
+        refine ⟨ha, hinv, ?_, Or.inl (by simp only; omega)⟩
+        intro ht; rw [htriv ht]; simp
 
-theorem parseU64Digits_safe (cx : Ctx c) (k : Comp) (ht : PeekTriv c k) (b : Bytes) (m step : Nat) (hb : Bytes.Valid b)
-    (hinv : MInv c m step) (hdig : DigRange c.mantissaRadix b.slc b.index b.slc.length) :
+theorem parseU64Digits_safe (cx : Ctx c) (k : Comp) (hg : Good c k) (b : Bytes) (m step : Nat) (hb : Bytes.Valid b)
+    (hinv : MInv c m step) (hdig : DSRange c k b.slc b.index b.slc.length) :
     Safe (parseU64Digits c k b m step) (fun r => Adv b r.1 ∧ MInv c r.2.1 r.2.2 ∧
-      r.2.2 + (r.1.index - b.index) = step ∧ (r.2.2 = 0 ∨ r.1.index = b.slc.length)) := by
+      (PeekTriv c k → r.2.2 + (r.1.index - b.index) = step) ∧ (r.2.2 = 0 ∨ r.1.index = b.slc.length)) := by
   unfold parseU64Digits
   have key : ∀ (b1 : Bytes) (m1 step1 : Nat), Adv b b1 → MInv c m1 step1 → step1 + (b1.index - b.index) = step →
       Safe (u64Loop1 c k (b1.slc.length + 1) b1 m1 step1) (fun r => Adv b r.1 ∧ MInv c r.2.1 r.2.2 ∧
-        r.2.2 + (r.1.index - b.index) = step ∧ (r.2.2 = 0 ∨ r.1.index = b.slc.length)) := by
+        (PeekTriv c k → r.2.2 + (r.1.index - b.index) = step) ∧ (r.2.2 = 0 ∨ r.1.index = b.slc.length)) := by
     intro b1 m1 step1 ha hi hcnt
-    have hdig1 : DigRange c.mantissaRadix b1.slc b1.index b1.slc.length := by
+    have hdig1 : DSRange c k b1.slc b1.index b1.slc.length := by
       rw [ha.slc]; intro j h1 h2; exact hdig j (by have := ha.mono; omega) h2
-    refine (u64Loop1_safe cx k ht _ b1 m1 step1 ha.valid' (by omega) hi hdig1).mono ?_
+    refine (u64Loop1_safe cx k hg _ b1 m1 step1 ha.valid' (by omega) hi hdig1).mono ?_
     intro r ⟨ha2, hi2, hc2, hend⟩
     rw [ha.slc] at hend
     refine ⟨ha.trans ha2, hi2, ?_, hend⟩
+    intro ht
+    have := hc2 ht
     have := ha.mono
     have := ha2.mono
     omega
